@@ -298,7 +298,8 @@ def collect_harness(prop, term, ty, src, n, t, c, owners, counts, obs=1, extra_p
     """One query = one shape: owner table x outputs-per-element, values symbolic.
     term: collect_vec | collect | collect_x | collect_into (target = Rust expr of the pre-filled target and its
     prefix length is checked by `check`)."""
-    tsrc = {"slice": "tslice", "vec": "tvec", "iter": "titer", "iterf": "titerf", "counting": "tcounting"}[src]
+    tsrc = {"slice": "tslice", "vec": "tvec", "iter": "titer", "iterf": "titerf", "counting": "tcounting",
+            "sched": "tsched", "schedx": "tschedx"}[src]
     tp = TaggedPipeline(ty, counts, src=tsrc, count_calls=count_calls)
     if owners is None:
         # iterator-backed source or sequential mode: no schedule model (first worker drains all)
@@ -328,3 +329,13 @@ def collect_harness(prop, term, ty, src, n, t, c, owners, counts, obs=1, extra_p
                           "outputs_per_element": list(counts), "values": "symbolic, decisions on concrete position tags"},
              unwind=unwind if unwind else 34 if (term == "collect" and ty == "M") else max(n + 3, sum(counts) + 3, 2 * n + 1 if "FL" in ty else 0),
              weight=weight or (5 + sum(counts) * 2 + (6 if term in ("collect", "collect_x") else 0)))
+
+
+def cap(items, k, seed=0):
+    """at most k of items, spread evenly; VERIF_SEED rotates which ones (the evidence file lists them)"""
+    items = list(items)
+    if len(items) <= k:
+        return items
+    step = len(items) / k
+    off = seed % max(1, int(step))
+    return [items[min(len(items) - 1, int(i * step) + off)] for i in range(k)]
